@@ -3,5 +3,9 @@ From Rosmar Require Import Base Json Crc Kv Store Trace KvTac.
 
 Theorem C14_row_sound : rc_sound chk_row_C14.
 Proof. start_rc. all: unfold chk_row_C14, expected_exp, oexp; fin.
+  all: try (match goal with
+            | H1 : wu_preserve ?u = _, H2 : wu_tombstone ?u = _, H3 : wu_preserve ?u && negb (wu_tombstone ?u) = _ |- _ =>
+                rewrite H1, H2 in H3; discriminate H3
+            end).
   all: match goal with |- ?G => idtac "GOAL" G end.
 Qed.
